@@ -41,6 +41,7 @@ static void create_interior_parent_of_interior(
     /**
      * process interior node members
      */
+    YAKUSHIMA_VERIF_HOOK(YAKUSHIMA_VERIF_STORE, ni);
     ni->n_keys_increment();
     ni->set_child_at(0, left);
     ni->set_child_at(1, right);
@@ -189,6 +190,7 @@ interior_node::delete_of(Token token, tree_instance* ti, base_node* const child)
             if (n_key == 1) {
                 // remove this node and promote its last child node one level
                 set_version_deleted(true);
+                YAKUSHIMA_VERIF_HOOK(YAKUSHIMA_VERIF_STORE, this);
                 n_keys_decrement();
                 base_node* sibling = get_child_at(1 - i); // i == 0 or 1
                 base_node* pn = lock_parent(ti);
@@ -229,6 +231,7 @@ interior_node::delete_of(Token token, tree_instance* ti, base_node* const child)
                     set_child_at(n_key, nullptr);
                 }
                 set_key(n_key - 1, 0, 0);
+                YAKUSHIMA_VERIF_HOOK(YAKUSHIMA_VERIF_STORE, this);
                 n_keys_decrement();
                 version_unlock();
             }
